@@ -144,8 +144,45 @@ var spreadInterfaceQueries = []string{
 	// tree (finding C01-abstract-type-selection: `Cannot query field "node" on type "Book"`)
 }
 
+// a second hand-written federation: one interface declared identically by two services, each of
+// which owns ONE of its implementations (and a root field returning the interface).
+var splitImplSDLs = []string{
+	`interface Node { id: ID! }
+interface Media { id: ID! title: String! }
+type Book implements Node & Media { id: ID! title: String! pages: Int }
+type Query { books: [Media!]! node(id: ID!): Node }
+`,
+	`interface Node { id: ID! }
+interface Media { id: ID! title: String! }
+type Film implements Node & Media { id: ID! title: String! runtime: Int }
+type Query { films: [Media!]! best: Media node(id: ID!): Node }
+`}
+
+func splitImplData() *fed.Data {
+	d := spreadData()
+	d.Roots["Query"] = map[string]fed.Val{
+		"books": {Kind: "list", List: []fed.Val{{Kind: "ref", Ref: "b1"}, {Kind: "ref", Ref: "b2"}}},
+		"films": {Kind: "list", List: []fed.Val{{Kind: "ref", Ref: "f1"}}},
+		"best":  {Kind: "ref", Ref: "f1"},
+	}
+	return d
+}
+
+var splitImplQueries = []string{
+	`{ books { title } }`,
+	`{ films { title } }`,
+	`{ books { title } films { title } }`,
+	`{ best { id title } }`,
+	`{ films { t: title ... on Film { runtime } } }`,
+	`{ books { title ... on Book { pages } } best { title } }`,
+}
+
 func spreadInterfaceCases() []coreCase {
 	var out []coreCase
+	for _, q := range splitImplQueries {
+		out = append(out, coreCase{Query: q, Kind: "query", Pinned: true, Features: []string{"directed:interface implementations in different services"},
+			Fed: &fedDump{SDLs: splitImplSDLs, Data: splitImplData()}})
+	}
 	for _, q := range spreadInterfaceQueries {
 		cs := coreCase{Query: q, Kind: "query", Pinned: true, Features: []string{"directed:interface spread over services"},
 			Fed: &fedDump{SDLs: spreadSDLs, Data: spreadData()}}
